@@ -68,8 +68,11 @@ def valid_knn(D, A, k):
 
 
 def nnps(A, v1, v2):
-    w = A.sum(axis=1)
-    P = A / w[:, None]
+    """NNPS distance by its definition: every row of the neighbour relation is weighted so that all rows carry
+    the same mass (rows multiplied up to the least common multiple of the row weights)."""
+    w = A.sum(axis=1).astype(int)
+    q = np.lcm.reduce(w)
+    P = (q / w)[:, None] * A
     m1, m2 = v1 @ P, v2 @ P
     with np.errstate(all="ignore"):
         return float(np.sum(np.abs(m1 - m2) / (m1 + m2)) / len(v1))
@@ -146,10 +149,16 @@ def run(case, ctx):
                         raise EndRun()
                 ds = [nnps(A, np.asarray(pm, dtype=float), 1 - np.asarray(pm, dtype=float)) for pm in perms]
                 mu, sd = float(np.mean(ds)), float(np.std(ds))
-                th = float(norm.ppf(1 - cfg["alpha"], mu, sd))
+                if sd <= 1e-12:
+                    # all re-assignments give the same distance (e.g. k = |D|): the fitted normal is degenerate and the
+                    # quantile is decided by rounding noise - not judged
+                    ctx.probe("degenerate_threshold_not_judged")
+                    ctx.near_ties += 1
+                    verified = False
+                th = float(norm.ppf(1 - cfg["alpha"], mu, sd)) if sd > 1e-12 else float("nan")
                 exp = d_act > th
                 got = det.drift_state == "drift"
-                if got != exp:
+                if verified and got != exp:
                     if abs(d_act - th) <= TIE:
                         ctx.near_tie()
                     ctx.violation("decision", "C10:decision",
